@@ -12,7 +12,9 @@ Pool(ct) ==
   CASE ct = 20 -> {<<1>>, <<1, 1>>, <<2>>, <<>>}
     [] ct = 21 -> {<<1, 0>>, <<2, 40, 7, 255>>, <<1>>, <<>>}
     [] ct = 22 -> {<<0, 0, 0, 0>>, <<20, 0, 0, 2, 170, 187, 14, 0, 0, 0>>, <<14, 0, 0, 3, 1>>,
-                   <<99, 0, 0, 1, 5>>, <<>>, <<24, 0, 0, 1, 0, 1, 0>>}
+                   <<99, 0, 0, 1, 5>>, <<>>, <<24, 0, 0, 1, 0, 1, 0>>,
+                   <<11, 0, 18, 52, 0, 18, 49, 0, 4, 48, 130, 1, 2>>,      \* the start of a Certificate continued in the next record
+                   <<255, 255, 255, 255, 255, 255, 255, 255, 255, 255>>}
     [] ct = 23 -> {<<>>, <<1, 2, 3>>}
     [] ct = 24 -> {<<1, 0, 2, 170, 187>>, <<2, 0, 1, 7, 0, 0, 0>>, <<1, 0, 9>>, <<1, 0>>}
     [] OTHER   -> {<<>>, <<1, 2>>}
@@ -45,7 +47,15 @@ BigSpecs ==
       : k \in {5, 6, 5 + dl - 1, 5 + dl, 5 + dl + 2} }
     : ct \in {20, 22, 23, 255}, dl \in {16639, 16640, 16641, 65535} }
 
-SpecsDef == SetToSeq(SmallSpecs \cup LyingSpecs \cup BigSpecs)
+(* a complete record followed by 2^16 - 1 .. 2^17 - 1 more bytes: what follows never matters, however much of it there is *)
+LongTrailSpecs ==
+  UNION { UNION {
+    { [ct |-> ct, ver |-> 771, len |-> Len(pl), wire |-> <<Lit(<<ct>> \o BE16(771) \o BE16(Len(pl)) \o pl), RepPart(171, LongTails[t])>>,
+       total |-> 5 + Len(pl) + LongTails[t], cut |-> 5 + Len(pl) + LongTails[t]] : t \in 1..Len(LongTails) }
+    : pl \in {<<1, 2, 3>>, <<0, 0, 0, 0>>, Fill(3, 300)} } : ct \in {22, 23} }
+  \cup { [ct |-> 23, ver |-> 771, len |-> 16640, wire |-> <<Lit(<<23>> \o BE16(771) \o BE16(16640)), FillPart(5, 16640), RepPart(171, LongTails[t])>>,
+          total |-> 5 + 16640 + LongTails[t], cut |-> 5 + 16640 + LongTails[t]] : t \in 1..Len(LongTails) }
+SpecsDef == SetToSeq(SmallSpecs \cup LyingSpecs \cup BigSpecs \cup LongTrailSpecs)
 ASSUME TLCSet(1, SpecsDef)
 Specs == TLCGet(1)
 N == Len(Specs) * 3
